@@ -813,13 +813,31 @@ fn rebuild_differently(r: &Runner, variant: u8) -> Option<Runner> {
             }
         }
     }
+    // one leaf may arrive through merge() instead of add/put/bind (variant bit 64): a vertex t
+    // without out-edges and with exactly one in-edge a -l-> t, such that every id below t is alive
+    // (then next_id() inside merge() names it t), merged onto a as the tree "root -l-> leaf[data]"
+    let via_merge: Option<(usize, Lab, usize)> = if variant & 64 != 0 {
+        alive.iter().rev().copied().find_map(|t| {
+            if !(0..t).all(|i| alive.contains(&i)) || !m.get(t).edges.is_empty() {
+                return None;
+            }
+            let ins: Vec<(usize, Lab)> = alive.iter().flat_map(|a| m.get(*a).edges.iter().filter(move |(_, x)| *x == t).map(move |(l, _)| (*a, l.clone()))).collect();
+            (ins.len() == 1 && ins[0].0 != t).then(|| (ins[0].0, ins[0].1.clone(), t))
+        })
+    } else {
+        None
+    };
+    let skip_t = via_merge.as_ref().map(|x| x.2);
     for v in &order {
-        if !step(&mut b, Call::Add(*v)) {
+        if Some(*v) != skip_t && !step(&mut b, Call::Add(*v)) {
             return None;
         }
     }
     // data: read status flipped where that is possible without a collection (before binding)
     for v in &order {
+        if Some(*v) == skip_t {
+            continue;
+        }
         if let Some(d) = &m.get(*v).data {
             if !step(&mut b, Call::Put(*v, d.clone())) {
                 return None;
@@ -843,8 +861,28 @@ fn rebuild_differently(r: &Runner, variant: u8) -> Option<Runner> {
         edges.reverse();
     }
     for (a, l, t) in edges {
+        if Some(t) == skip_t {
+            continue;
+        }
         // more than 14 groups / 16 members may be needed in another order: give up then
         if !step(&mut b, Call::Bind { a, b: t, l, parsed: false }) {
+            return None;
+        }
+    }
+    if let Some((a, l, t)) = via_merge {
+        use crate::calls::{TNode, TreeSpec};
+        let h = TreeSpec {
+            cap: 3,
+            nodes: vec![
+                TNode { id: 2, parent: None, label: None, data: None, read: false },
+                TNode { id: 0, parent: Some(0), label: Some(l), data: m.get(t).data.clone(), read: variant & 8 != 0 && m.get(t).data.is_some() },
+            ],
+            extras: vec![],
+            pairs_first: false,
+            segment: 0,
+        };
+        // outside merge()'s domain (a is not the root of a tree, no room): no rebuilt graph
+        if !step(&mut b, Call::Merge { h, left: a }) || b.m.alive() != alive || b.m.get(t).data != m.get(t).data {
             return None;
         }
     }
